@@ -145,6 +145,10 @@ class MDOParallelChain(ProcessDiscipline):
         # Update jacobians according to input order of priority:
         # as in _execute, the last discipline computing an output defines it.
         for discipline_jacobian in jacobians:
+            if discipline_jacobian is None:
+                # The linearization of this discipline failed.
+                continue
+
             for output_name, output_jacobian in discipline_jacobian.items():
                 self.jac[output_name] = dict(output_jacobian)
 
